@@ -10,8 +10,12 @@ KillNow == <<<<KILL, INF>>, <<NOOP, 0>>, <<NOOP, 0>>>>
 WaitOnly == <<<<WAITA, 0>>, <<NOOP, 0>>, <<NOOP, 0>>>>
 Fail == {[dl |-> d, stop |-> p, nb |-> nb, rin |-> ri, rout |-> 0, rerr |-> R_PIPE, input |-> inp, term |-> 0, self |-> FALSE, prog |-> pr] :
            d \in {0, 1}, p \in {KillNow, NoStop}, nb \in BOOLEAN, ri \in {0}, inp \in {-1, PipeCap + 1}, pr \in {"/nonexistent", "/bin/c"}}
+        \* ... or the options are refused up front (input for a stdin that is not a pipe): refused with or without a deadline,
+        \* and nothing of the refused options - its deadline least of all - is in force after the next start (C13)
+        \cup {[dl |-> d, stop |-> KillNow, nb |-> FALSE, rin |-> R_DISCARD, rout |-> 0, rerr |-> R_PIPE, input |-> 0, term |-> 0, self |-> FALSE, prog |-> "/bin/c"] :
+                d \in {0, 1}}
 Ok == {[dl |-> d, stop |-> p, nb |-> nb, rin |-> 0, rout |-> 0, rerr |-> 0, input |-> -1, term |-> t, self |-> TRUE, prog |-> "/bin/c"] :
-           d \in {0, 2}, p \in {WaitOnly, NoStop}, nb \in BOOLEAN, t \in {0, 2}}
+           d \in {0, 2, 3600000}, p \in {WaitOnly, NoStop}, nb \in BOOLEAN, t \in {0, 2}}   \* (3600000: an hour - a deadline is any positive number of milliseconds)
 
 Next ==
   \/ ncalls = 0 /\ New(1)
